@@ -550,6 +550,13 @@ def reference(case) -> str:
     return " ".join(r.op(o) for o in case["ops"]) + " | " + r.final()
 
 
+def make_recorder():
+    """a pass-through callback whose frames are counted by the C02 depth meter (co_name 'f' in this file)"""
+    def f(arg):
+        return arg
+    return f
+
+
 # ---------------------------------------------------------------------------------------------------
 # entry helper
 
